@@ -7,8 +7,9 @@ import (
 	"os"
 	"os/exec"
 	"path/filepath"
-	"strconv"
+	"sort"
 	"strings"
+	"sync"
 
 	"verif/h/conc"
 	"verif/h/run"
@@ -42,6 +43,13 @@ type c06Phase struct {
 }
 
 func (j *c06Job) phases(sc *conc.Scenario) []c06Phase {
+	if strings.HasPrefix(sc.Name, "S7 ") {
+		// the generated family: one driver per ladder path
+		if j.tier == "thorough" {
+			return []c06Phase{{false, 0}, {true, 1}, {false, 1}, {true, 2}, {false, 2}}
+		}
+		return []c06Phase{{false, 0}, {true, 1}, {false, 1}, {true, 2}}
+	}
 	if j.tier == "thorough" {
 		if len(sc.Threads) == 2 {
 			return []c06Phase{{false, 0}, {false, 1}, {true, 2}, {false, 2}, {true, 3}}
@@ -191,8 +199,8 @@ func init() {
 			"a failing schedule is replayed and must reproduce identically before it is reported",
 		},
 		Bounds: map[string]string{
-			"quick":    "drivers: 51 shared-function pairs (one per node/comparator/logical/function kind; outcome-flipping documents) and 12 more with two succeeding documents of different sizes, 64 Parse||Parse pairs, 48 Parse||call, 16 three-thread, 8 two-functions-one-document, 10 two-operations-per-thread; all schedules with <=1 deviation (preemption or non-default pool answer) at every scheduling point, and <=2 deviations at coarse points (lock/pool operations, public API, parser phases, every retrieve/compute method)",
-			"thorough": "144 Parse||Parse pairs; two-thread drivers: <=2 deviations at every point and <=3 at coarse points; three-thread drivers: <=1 at every point, <=3 at coarse points",
+			"quick":    "drivers: 51 shared-function pairs (one per node/comparator/logical/function kind; outcome-flipping documents) and 12 more with two succeeding documents of different sizes, 64 Parse||Parse pairs, 48 Parse||call, 16 three-thread, 8 two-functions-one-document, 10 two-operations-per-thread, and one generated driver for EVERY path of <=1 step over the full step alphabet (functions included) and every two-step path over the mid alphabet (674: a shared parsed function called by two threads on two documents picked by exhaustive scoring - both succeed, root containers of different sizes where possible); all schedules with <=1 deviation (preemption or non-default pool answer) at every scheduling point, and <=2 deviations at coarse points (lock/pool operations, public API, parser phases, every retrieve/compute method)",
+			"thorough": "144 Parse||Parse pairs; two-thread drivers: <=2 deviations at every point and <=3 at coarse points; three-thread drivers: <=1 at every point, <=3 at coarse points; generated drivers for every path of <=2 steps over the full alphabet (about 3k), <=2 deviations",
 		},
 		New:   newC06,
 		Extra: c06RacePass,
@@ -237,10 +245,39 @@ func c06RacePass(tier string, cov map[string]interface{}) []run.Violation {
 		cov["race_pass"] = "could not be built: " + firstLineOf(string(out))
 		return nil
 	}
+	// the drivers are split into 12 contiguous ranges, one process each, in parallel
+	total := len(conc.Scenarios(tier))
+	const shards = 12
+	var mu sync.Mutex
+	var wg sync.WaitGroup
 	var vs []run.Violation
-	from, scenariosRun, goroutines := 0, 0, 0
-	for tries := 0; tries < 40; tries++ {
-		cmd := exec.Command(bin, tier, "from:"+strconv.Itoa(from))
+	scenariosRun, goroutines := 0, 0
+	for sh := 0; sh < shards; sh++ {
+		lo, hi := total*sh/shards, total*(sh+1)/shards
+		wg.Add(1)
+		go func(lo, hi int) {
+			defer wg.Done()
+			v, n, g := c06RaceRange(bin, tier, lo, hi)
+			mu.Lock()
+			vs = append(vs, v...)
+			scenariosRun += n
+			goroutines += g
+			mu.Unlock()
+		}(lo, hi)
+	}
+	wg.Wait()
+	sort.Slice(vs, func(a, b int) bool { return vs[a].Sig < vs[b].Sig })
+	cov["race_pass"] = fmt.Sprintf("free-running -race pass over %d driver runs (threads replicated 1x/2x/8x, barrier start): %d race/crash reports; this is a sampled happens-before check, not part of the exhaustive count", scenariosRun, len(vs))
+	cov["race_pass_goroutines"] = goroutines
+	return vs
+}
+
+// c06RaceRange runs the drivers [lo,hi) in one racepass process, restarting after the driver
+// at which the runtime reported a race (the report ends the process).
+func c06RaceRange(bin, tier string, lo, hi int) (vs []run.Violation, scenariosRun, goroutines int) {
+	from := lo
+	for tries := 0; tries < 40 && from < hi; tries++ {
+		cmd := exec.Command(bin, tier, fmt.Sprintf("from:%d:%d", from, hi))
 		cmd.Env = append(os.Environ(), "GORACE=halt_on_error=1 exitcode=66")
 		var stderr strings.Builder
 		cmd.Stderr = &stderr
@@ -280,9 +317,7 @@ func c06RacePass(tier string, cov map[string]interface{}) []run.Violation {
 		}
 		from = last + 1
 	}
-	cov["race_pass"] = fmt.Sprintf("free-running -race pass over %d driver runs (threads replicated 1x/2x/8x, barrier start): %d race/crash reports; this is a sampled happens-before check, not part of the exhaustive count", scenariosRun, len(vs))
-	cov["race_pass_goroutines"] = goroutines
-	return vs
+	return
 }
 
 func firstLineOf(s string) string {
